@@ -30,7 +30,10 @@ KINDS = [
     ("unitssystem", "units.py", "unitssystem_from_dict", "unitssystem_to_dict"),
     ("unitsdimensions", "units.py", "unitsdimensions_from_dict", "unitsdimensions_to_dict"),
     ("unitarray", "units.py", "unitarray_from_dict", "unitarray_to_dict"),
+    # no synonym table here: the loader indexes the parsed JSON object directly; every key it looks up is a field of its own
+    ("trajectory", "rdoutput.py", "load_rdtrajectory", "save_rdtrajectory"),
 ]
+PLAIN_READERS = {"load_rdtrajectory": "json.load"}      # reader -> the call whose result is the dictionary
 # the kinds of the original nine object readers (names used by the Coq development and by c12 / c20)
 OBJECT_KINDS = ["species", "reaction", "network", "grid", "node", "edge", "graph", "system", "script"]
 
@@ -51,6 +54,51 @@ def _const_str(n, where):
     if isinstance(n, ast.Constant) and isinstance(n.value, str):
         return n.value
     raise TranslateError("%s: expected a string literal, found %s" % (where, ast.dump(n)[:80]))
+
+
+def _uses(fn, var, where):
+    uses = []
+
+    def add(k):
+        if k not in uses:
+            uses.append(k)
+    for n in ast.walk(fn):
+        if isinstance(n, ast.Compare) and len(n.ops) == 1 and isinstance(n.ops[0], (ast.In, ast.NotIn)) \
+                and isinstance(n.comparators[0], ast.Name) and n.comparators[0].id == var:
+            add(_const_str(n.left, where + " (membership test)"))
+        elif isinstance(n, ast.Subscript) and isinstance(n.value, ast.Name) and n.value.id == var:
+            add(_const_str(n.slice, where + " (subscript)"))
+        elif isinstance(n, ast.Call) and isinstance(n.func, ast.Attribute) and isinstance(n.func.value, ast.Name) \
+                and n.func.value.id == var:
+            if n.func.attr in ("get", "pop"):
+                add(_const_str(n.args[0], where + " (.%s)" % n.func.attr))
+            else:
+                raise TranslateError("%s: unexpected method %s of the processed dictionary" % (where, n.func.attr))
+        elif isinstance(n, ast.Call):
+            f = n.func
+            name = f.attr if isinstance(f, ast.Attribute) else getattr(f, "id", None)
+            if name == "retrive_units_system_from_dict":
+                add("units")
+    return uses
+
+
+def _plain_reader(fn, call, where):
+    """a loader without key processing: the dictionary is the result of `call` (e.g. json.load); one field per key looked up"""
+    var = None
+    for n in ast.walk(fn):
+        if isinstance(n, ast.Assign) and isinstance(n.value, ast.Call) and len(n.targets) == 1 and isinstance(n.targets[0], ast.Name):
+            f = n.value.func
+            name = (getattr(f.value, "id", "") + "." + f.attr) if isinstance(f, ast.Attribute) else getattr(f, "id", None)
+            if name == call:
+                if var is not None:
+                    raise TranslateError("%s: %s called twice" % (where, call))
+                var = n.targets[0].id
+    if var is None:
+        raise TranslateError("%s: no dictionary obtained from %s" % (where, call))
+    uses = _uses(fn, var, where)
+    if not uses:
+        raise TranslateError("%s: the loader looks up no key" % where)
+    return [[k] for k in uses], uses
 
 
 def _reader(fn, where):
@@ -78,29 +126,7 @@ def _reader(fn, where):
                     syn.append([_const_str(e, where) for e in row.elts])
     if syn is None:
         raise TranslateError("%s: no call of process_input_dict_keys" % where)
-    uses = []
-
-    def add(k):
-        if k not in uses:
-            uses.append(k)
-    for n in ast.walk(fn):
-        if isinstance(n, ast.Compare) and len(n.ops) == 1 and isinstance(n.ops[0], (ast.In, ast.NotIn)) \
-                and isinstance(n.comparators[0], ast.Name) and n.comparators[0].id == var:
-            add(_const_str(n.left, where + " (membership test)"))
-        elif isinstance(n, ast.Subscript) and isinstance(n.value, ast.Name) and n.value.id == var:
-            add(_const_str(n.slice, where + " (subscript)"))
-        elif isinstance(n, ast.Call) and isinstance(n.func, ast.Attribute) and isinstance(n.func.value, ast.Name) \
-                and n.func.value.id == var:
-            if n.func.attr in ("get", "pop"):
-                add(_const_str(n.args[0], where + " (.%s)" % n.func.attr))
-            else:
-                raise TranslateError("%s: unexpected method %s of the processed dictionary" % (where, n.func.attr))
-        elif isinstance(n, ast.Call):
-            f = n.func
-            name = f.attr if isinstance(f, ast.Attribute) else getattr(f, "id", None)
-            if name == "retrive_units_system_from_dict":
-                add("units")
-    return syn, uses
+    return syn, _uses(fn, var, where)
 
 
 def _writer(fn, where):
@@ -136,7 +162,10 @@ def extract(repo=None):
         fs = cache[fname]
         if rd not in fs or wr not in fs:
             raise TranslateError("%s: %s / %s not found" % (fname, rd, wr))
-        syn, uses = _reader(fs[rd], "%s:%s" % (fname, rd))
+        if rd in PLAIN_READERS:
+            syn, uses = _plain_reader(fs[rd], PLAIN_READERS[rd], "%s:%s" % (fname, rd))
+        else:
+            syn, uses = _reader(fs[rd], "%s:%s" % (fname, rd))
         out[kind] = {"synonyms": syn, "uses": uses, "writer": _writer(fs[wr], "%s:%s" % (fname, wr))}
     # the key read before the space readers are entered (rdspace_from_dict dispatches on it)
     sp = _functions(root / "rdspace.py").get("rdspace_from_dict")
